@@ -229,8 +229,8 @@ func (b *goBuilder) expr(t Term, typ types.Type, heaps map[string]Term) string {
 		if v == 0 {
 			return "nil"
 		}
-		b.imports["errors"] = "errors"
-		return fmt.Sprintf("errors.New(\"replay-error-%d\")", v)
+		b.imports["errors"] = "rpstderrors"
+		return fmt.Sprintf("rpstderrors.New(\"replay-error-%d\")", v)
 	case KStruct:
 		st, ok := typ.Underlying().(*types.Struct)
 		if !ok {
